@@ -579,6 +579,19 @@ func expiry(r *vh.Run, i int) {
 		}
 		return pathOf(rs.H.Get("Location"))
 	}
+	if i%4 >= 2 {
+		// empty the repository's session table by explicit removals first (a completed upload, a cancelled one): expiry
+		// must work for sessions opened afterwards as well
+		if p1 := post(); p1 != "" {
+			body := []byte(fmt.Sprintf("warmup %d", i))
+			vh.Do(srv, vh.Req{Method: "PUT", URL: p1 + "?state=" + state(0) + "&digest=" + vh.DigestOf("sha256", body), Body: body})
+		}
+		if p2 := post(); p2 != "" {
+			vh.Do(srv, vh.Req{Method: "DELETE", URL: p2})
+		}
+		wit["table_emptied_first"] = true
+		r.Count("expiry_trials_after_emptying", 1)
+	}
 	idle, live := post(), post()
 	if idle == "" || live == "" {
 		r.Violation("create", "POST failed", wit)
